@@ -1057,11 +1057,20 @@ func (x *run) pushFlow() {
 		i, err := strconv.Atoi(dl.tag)
 		if err != nil || i < 0 || i >= len(x.cases) {
 			// the tag is a received non-sensitive header: losing or changing it is itself a header fidelity failure
-			j := 0
-			for j < len(x.cases)-1 && !x.acc[j] {
-				j++
+			// which message it was can only be told from the body and the target: attribute it when that is unambiguous,
+			// otherwise the replay is the whole batch
+			j, n := 0, 0
+			for c := range x.cases {
+				if x.acc[c] && routes[x.cases[c].Route].url == dl.url && bytes.Equal(x.bodies[c], dl.body) {
+					j = c
+					n++
+				}
 			}
-			x.fail(j, "header-missing:"+caseHeader+":push", fmt.Sprintf("a push delivery arrived without the received header %s (got %q, headers %v, %d body bytes)", caseHeader, dl.tag, dl.header, len(dl.body)))
+			if n != 1 {
+				for j = 0; j < len(x.cases)-1 && !x.acc[j]; j++ {
+				}
+			}
+			x.failW(j, "header-missing:"+caseHeader+":push", fmt.Sprintf("a push delivery arrived without the received header %s (got %q, headers %v, %d body bytes)", caseHeader, dl.tag, dl.header, len(dl.body)), n != 1)
 			continue
 		}
 		if perCase[i] == nil {
